@@ -38,8 +38,29 @@ def run(ctx) -> None:
         for c in walk_no_nested(f.node):
             if isinstance(c, ast.Call) and norm(c.func) == "csv.writer":
                 writers.append((f, c))
+    # who-writes: the archive is read back with the module's dialect (delimiter / QUOTE_NONE / escapechar); the only writer
+    # that is known to honour that dialect for every text (it also escapes the escape character itself and line ends) is
+    # csv.writer - row text assembled by hand and written with file.write() bypasses it
+    raw = []
+    for f in [x for c in m.classes.values() for x in c.methods.values()] + list(m.functions.values()):
+        for c in walk_no_nested(f.node):
+            if isinstance(c, ast.Call) and isinstance(c.func, ast.Attribute) and c.func.attr in ("write", "writelines") \
+                    and isinstance(c.func.value, ast.Name):
+                # a file object: bound by `with open(...) as <name>`
+                opened = any(isinstance(w, ast.With) and any(isinstance(i.context_expr, ast.Call) and norm(i.context_expr.func) == "open"
+                                                             and i.optional_vars is not None and norm(i.optional_vars) == c.func.value.id
+                                                             for i in w.items) for w in ast.walk(f.node))
+                if opened:
+                    raw.append((f, c))
+    for f, c in raw:
+        ctx.fail("R39a", f, c, f"{f.short}: archive rows are written through csv.writer",
+                 f"`{norm(c)[:80]}` writes row text that was assembled by hand: the module's dialect (QUOTE_NONE with escapechar) is "
+                 "only guaranteed by csv.writer, which also escapes the escape character itself - a hand-made formatter that "
+                 "leaves it out makes a text containing a backslash read back changed (and can swallow the next delimiter)")
     if len(writers) < 3:
-        raise AnchorError(f"only {len(writers)} csv.writer sites found (floor 3)")
+        ctx.floor_failures.append(f"only {len(writers)} csv.writer sites found (floor 3)")
+        if not raw:
+            raise AnchorError(f"only {len(writers)} csv.writer sites found (floor 3)")
     for f, c in writers:
         ctx.analysed(f)
         kws = {k.arg: norm(k.value) for k in c.keywords}
